@@ -2,7 +2,7 @@
 import re
 
 import mirq
-from mirq import calls, assigns, callee_of, callee_path, Prov, fmt_roots
+from mirq import calls, assigns, callee_of, callee_path, Prov, fmt_roots, fmt_root
 from report import RuleResult, V
 
 PARSER_TRAITS = {"Parser", "IterParser", "ConfigParser", "ConfigIterParser", "recovery::Strategy", "pratt::Operator"}
@@ -588,6 +588,45 @@ def rule_err_span(facts):
             r.ob(ok)
             if not ok:
                 r.violations.append(V("ERR-SPAN", b["uname"], "default merges the triple", "default merge_expected_found must be self.merge(expected_found(expected, found, span)); found %s" % fmt_roots(ret), *loc(b)))
+    # merging two failures at one position never re-homes the error: the result keeps the span of `self` (the error that was
+    # recorded first).  Decided for the trait defaults and for EVERY impl of Error::merge / LabelError::merge_expected_found,
+    # including ones added later: Cheap/Simple/Rich must agree on the span, so an override that returns `other` (or builds
+    # the result around other's / the new span) on some path makes one error type report a different span for the same failure.
+    nm = 0
+    for b in facts.bodies:
+        if b["kind"] == "Closure":
+            continue
+        tr = b.get("impl_trait") or b.get("in_trait")
+        if not ((tr == "error::Error" and b["name"] == "merge") or (tr == "label::LabelError" and b["name"] == "merge_expected_found")):
+            continue
+        nm += 1
+        pv = Prov(b)
+        ret = pv.of_local(0)
+        bad = []
+        for x in ret:
+            if x == ("arg", 1):
+                continue
+            if x[0] == "aggf":
+                d = dict(x[2])
+                if "span" in d and not set(d["span"]) <= {("arg", 1, "span")}:
+                    bad.append("span <- %s" % fmt_roots(d["span"]))
+                continue
+            if x[0] == "call" and x[1] == "merge" and len(x[3]) == 2 and set(x[3][0]) == {("arg", 1)}:
+                continue        # default merge_expected_found: self.merge(new): decided by the merge it resolves to
+            if x[0] == "arg" and x[1] != 1:
+                bad.append("returns argument %d" % x[1])
+            elif x[0] == "call":
+                # built by a call: the receiver / first operand must be rooted in self only
+                if not x[3] or not all(y[0] == "arg" and y[1] == 1 for y in x[3][0]):
+                    bad.append("built by %s" % fmt_root(x)[:120])
+        ok = not bad
+        r.ob(ok)
+        if not ok:
+            r.violations.append(V("ERR-SPAN", b["uname"], "merge keeps the span of self",
+                                  "%s: merging two failures recorded at the same position must keep the span of the error recorded first "
+                                  "(`self`) on every path -- Cheap, Simple and Rich report the same span only then; found: %s"
+                                  % (b["uname"], "; ".join(sorted(set(bad)))[:300]), *loc(b)))
+    n += nm
     r.explanation = ("%d LabelError bodies: every expected_found stores its span (and found) argument unchanged, so Cheap/Simple/Rich report "
                      "the same span for the same failure; replace_expected_found assigns the new span and clears contexts on every path; "
                      "trait defaults forward (expected, found, span) in order" % n)
@@ -629,8 +668,9 @@ def _uncompared_reason(b, path):
         if op is None:
             continue
         ch = mirq.switch_choice(b, bb, idx)
+        listed = [v for v, _ in t["targets"]]
         for x in pp_.of_place(op):
-            if x[0] == "discr" and ch == 0:
+            if x[0] == "discr" and (ch == 0 or (ch == "otherwise" and listed == [1])):
                 src = fmt_roots(x[1])
                 if "errors.alt" in src:
                     return "none-pending"
@@ -669,9 +709,27 @@ def rule_order_arms(facts):
         b = facts.one(q)
         pv = Prov(b)
         cmps = [(i, t) for i, bl, t, f in calls(b) if f is not None and f["name"] == "cmp"]
-        ok = len(cmps) == 1
-        d = "%d cmp calls" % len(cmps)
-        if ok:
+        # the two positions may be compared by one `cmp` call or by primitive `<` / `>` / `==` tests (an if-chain): every such
+        # comparison of exactly (pending position, new position), in either operand order, refines the ordering known on a path
+        REL = {"Lt": {"Less"}, "Le": {"Less", "Equal"}, "Gt": {"Greater"}, "Ge": {"Greater", "Equal"}, "Eq": {"Equal"}, "Ne": {"Less", "Greater"}}
+        FLIP = {"Less": "Greater", "Greater": "Less", "Equal": "Equal"}
+        bin_tests = {}        # local holding the bool -> set of orderings under which it is true
+        other_cmp = []
+        for _, bl, s_ in assigns(b):
+            rv = s_["rv"]
+            if rv["k"] == "bin" and rv["op"] in REL and not s_["place"]["p"]:
+                a0 = fmt_roots(pv.of_operand(rv["a"]))
+                a1 = fmt_roots(pv.of_operand(rv["b"]))
+                if (a0, a1) == exp["cmp"]:
+                    bin_tests[s_["place"]["l"]] = set(REL[rv["op"]])
+                elif (a1, a0) == exp["cmp"]:
+                    bin_tests[s_["place"]["l"]] = {FLIP[x] for x in REL[rv["op"]]}
+                elif exp["cmp"][0] in (a0, a1) or exp["cmp"][1] in (a0, a1):
+                    other_cmp.append("%s(%s, %s)" % (rv["op"], a0, a1))
+        ok = len(cmps) == 1 or (not cmps and bool(bin_tests))
+        d = "%d cmp calls, %d primitive comparisons of the two positions%s" % (len(cmps), len(bin_tests), (" (other comparisons: %s)" % other_cmp) if other_cmp else "")
+        cmp_dest = None
+        if cmps and ok:
             a0 = fmt_roots(pv.of_operand(cmps[0][1]["args"][0]["op"]))
             a1 = fmt_roots(pv.of_operand(cmps[0][1]["args"][1]["op"]))
             ok = (a0, a1) == exp["cmp"]
@@ -685,13 +743,15 @@ def rule_order_arms(facts):
                                   % (q.split("::")[-1], d), *loc(b)))
             continue
         # discriminant locals of the cmp result and of the taken Option
-        disc_cmp = {s["place"]["l"] for _, _, s in assigns(b) if s["rv"]["k"] == "discr" and s["rv"]["place"]["l"] == cmp_dest}
+        disc_cmp = {s["place"]["l"] for _, _, s in assigns(b) if s["rv"]["k"] == "discr" and s["rv"]["place"]["l"] == cmp_dest} if cmp_dest is not None else set()
         seen = {}
         nocmp = {}
         flagged = set()
         for path in mirq.paths(b):
             arm = None
             took_option = None
+            poss = {"Less", "Equal", "Greater"}
+            compared = False
             for bb, idx in path:
                 t = b["blocks"][bb]["term"]
                 if t["k"] == "switch" and idx not in (None, "loop"):
@@ -699,7 +759,20 @@ def rule_order_arms(facts):
                     if op is not None and op["l"] in disc_cmp:
                         ch = mirq.switch_choice(b, bb, idx)
                         arm = {255: "Less", -1: "Less", 0: "Equal", 1: "Greater"}.get(ch, "other")
-            has_cmp = any(bb == cmps[0][0] for bb, _ in path)
+                        compared = True
+                    elif op is not None and not op["p"] and op["l"] in bin_tests:
+                        ch = mirq.switch_choice(b, bb, idx)
+                        truth = bin_tests[op["l"]]
+                        if ch == 0:
+                            poss &= ({"Less", "Equal", "Greater"} - truth)
+                        else:
+                            poss &= truth
+                        compared = True
+            if compared and arm is None:
+                if not poss:
+                    continue            # infeasible combination of test outcomes
+                arm = next(iter(poss)) if len(poss) == 1 else "other"
+            has_cmp = compared or (bool(cmps) and any(bb == cmps[0][0] for bb, _ in path))
             if not has_cmp:
                 arm = "None"
                 # a path that stores without comparing positions is legitimate only when nothing is pending, or when the
@@ -926,6 +999,65 @@ def rule_entry_sib(facts):
 
 # ====================================================================== MERGE-ARMS (Rich: a user-supplied error survives a merge)
 
+_GROW = {"push", "append", "extend", "extend_from_slice", "insert", "push_back", "push_front", "extend_from_within", "resize", "splice"}
+
+
+def _unfiltered_growth(b):
+    """Calls in `b` that add elements to a Vec and are not a `push` control-dependent on the `absent` outcome of a membership test."""
+    dom = mirq.dominators(b)
+    tests = {}
+    for i, bl, t, f in calls(b):
+        if f is not None and f["name"] in ("contains", "any", "all") and f.get("krate") in ("core", "std", "alloc") and not t["dest"]["p"]:
+            tests[i] = (t["dest"]["l"], f["name"])
+    out = []
+    for i, bl, t, f in calls(b):
+        if f is None or f["name"] not in _GROW or f.get("krate") not in ("alloc", "std", "core"):
+            continue
+        if "Vec" not in (f.get("self_ty") or ""):
+            continue
+        if f["name"] != "push":
+            out.append((f["name"], bl["line"]))
+            continue
+        ok = False
+        for ti, (rl, nm) in tests.items():
+            if ti not in dom.get(i, ()):
+                continue
+            # the switch on the test result (possibly through `!`) that separates test and push
+            for si, sbl in enumerate(b["blocks"]):
+                st = sbl["term"]
+                if st["k"] != "switch" or ti not in dom.get(si, ()) or si not in dom.get(i, ()):
+                    continue
+                op = mirq.operand_place(st["op"])
+                if op is None or op["p"]:
+                    continue
+                neg = None
+                if op["l"] == rl:
+                    neg = False
+                else:
+                    for s_ in sbl["stmts"]:
+                        if s_["k"] == "assign" and s_["place"]["l"] == op["l"] and not s_["place"]["p"] and s_["rv"]["k"] == "un" and s_["rv"].get("op") == "Not":
+                            src = mirq.operand_place(s_["rv"]["a"]) if "a" in s_["rv"] else None
+                            if src is not None and src["l"] == rl:
+                                neg = True
+                if neg is None:
+                    continue
+                # which outcome of the switch leads to the push?
+                ss = mirq.succs(b, si)
+                lead = [k for k, sx in enumerate(ss) if sx == i or sx in dom.get(i, ())]
+                if len(lead) != 1:
+                    continue
+                val = mirq.switch_choice(b, si, lead[0])
+                truth = (val != 0)              # value of the switched bool on the edge towards the push
+                present = (not truth) if neg else truth
+                if nm == "all":                 # all(|x| x != e) == true  <=>  absent
+                    present = not present
+                if not present:
+                    ok = True
+        if not ok:
+            out.append(("push", bl["line"]))
+    return out
+
+
 def rule_merge_arms(facts):
     """`RichReason::flat_merge(self, other)`: a Custom (user-supplied) reason on either side is what the merge
     returns (the first one if both are); two ExpectedFound reasons give an ExpectedFound that keeps self's `found`."""
@@ -1011,6 +1143,24 @@ def rule_merge_arms(facts):
             r.violations.append(V("MERGE-ARMS", b["qname"], "merge of (%s, %s)" % (a, c),
                                   "flat_merge(self: %s, other: %s) must return %s (a user-supplied error at that position is preserved; "
                                   "expected-sets are merged keeping the first `found`); the code returns %s" % (a, c, w, sorted(got)), *loc(b)))
+    # ---- the expected sets are merged as SETS: an element is added only when a membership test on the same path said `absent`
+    nset = 0
+    for q in ("error::RichReason::flat_merge", "error::Rich[label::LabelError]::merge_expected_found"):
+        bb_ = [x for x in facts.bodies if x["uname"] == q]
+        if len(bb_) != 1:
+            r.errors.append("anchor %s: %d bodies" % (q, len(bb_)))
+            continue
+        for what, line in _unfiltered_growth(bb_[0]):
+            nset += 1
+            r.ob(False)
+            r.violations.append(V("MERGE-ARMS", q, "expected set grows without a membership test (%s)" % what,
+                                  "%s merges two expected-sets: every pattern it adds must be added by a `push` that is reached only "
+                                  "when a membership test (`contains` / `any`) on the same path found it absent - a bulk `append`/`extend`, "
+                                  "an unguarded push or `dedup()` (adjacent duplicates only) makes the merge non-idempotent, so an error "
+                                  "that is merged with itself (a memo hit replaying the stored error, the same alternative retried) "
+                                  "lists every expectation twice" % q.split("::")[-1], bb_[0]["file"], line))
+        nset += 1
+        r.ob(True)
     r.explanation = ("RichReason::flat_merge decided per pair of variants by path-sensitive provenance of the returned value: Custom on either "
                      "side is returned (first wins), ExpectedFound x ExpectedFound builds ExpectedFound keeping self's `found` (%d variant pairs)"
                      % len(want))
